@@ -222,6 +222,22 @@ func c02Judge(w *mon.W, id string, x *oracle.Loc, parent string, viaParse bool) 
 			w.Violation(id, fmt.Sprintf("%s for %s is written as %q, which denotes different bases or partial ends", b.name, clip(text, 160), clip(out, 160)), rep)
 		}
 	}
+	// (iv) writing must not alter the structure: same bases and same text afterwards
+	for _, b := range structs {
+		var out1, out2 string
+		if p := mon.Try(func() { out1 = genbank.BuildLocationString(b.loc) }); p != "" {
+			continue
+		}
+		got, p := featureSeq(parent, b.loc)
+		w.Add("evaluations_after_writing", 1)
+		if p != "" || got != want {
+			w.Violation(id, fmt.Sprintf("after BuildLocationString, %s for %s reports %q %s instead of %q: writing altered the location", b.name, clip(text, 160), clip(got, 60), p, clip(want, 60)), rep)
+			continue
+		}
+		if mon.Try(func() { out2 = genbank.BuildLocationString(b.loc) }) == "" && out1 != out2 {
+			w.Violation(id, fmt.Sprintf("%s for %s is written as %q the first time and %q the second time", b.name, clip(text, 160), clip(out1, 100), clip(out2, 100)), rep)
+		}
+	}
 }
 
 // ---- shape enumeration --------------------------------------------------------
